@@ -1043,7 +1043,7 @@ fn msgs_to<'a>(ops: &'a [Op], out: &mut Vec<(usize, u64)>) {
                 out.push(((*h % 50) as usize, m.id));
                 msgs_to(&m.steps, out);
             }
-            Op::Cancel { op, .. } => msgs_to(std::slice::from_ref(op), out),
+            Op::Cancel { op, .. } | Op::Unpolled(op) => msgs_to(std::slice::from_ref(op), out),
             Op::Fork { ops, .. } => msgs_to(ops, out),
             Op::Join(ops) | Op::Race(ops) => msgs_to(ops, out),
             _ => {}
@@ -1100,7 +1100,7 @@ fn inject_msg(ops: &mut [Op], mid: u64, at_end: bool) {
                     inject_msg(&mut m.steps, mid, at_end);
                 }
             }
-            Op::Cancel { op, .. } => inject_msg(std::slice::from_mut(&mut **op), mid, at_end),
+            Op::Cancel { op, .. } | Op::Unpolled(op) => inject_msg(std::slice::from_mut(&mut **op), mid, at_end),
             Op::Fork { ops, .. } => inject_msg(ops, mid, at_end),
             Op::Join(ops) | Op::Race(ops) => inject_msg(ops, mid, at_end),
             _ => {}
